@@ -160,6 +160,7 @@ class DriveResult:
         self.token: Any = None
         self.extra: Dict[str, Any] = {}
         self.events: List[Tuple] = []  # ("send"|"recv_start"|"recv", t, task name, item)
+        self.inject: Optional[Callable[[Any], None]] = None  # put an object on the read stream now
 
 
 def drive(
@@ -179,6 +180,7 @@ def drive(
     async def main() -> None:
         send, recv = anyio.create_memory_object_stream(math.inf)
         rec = RecordingSend()
+        res.inject = send.send_nowait
 
         async def feeder() -> None:
             if wait_first_write:
